@@ -6,6 +6,9 @@ import (
 	"strings"
 )
 
+// *asset.Snapshot (resolved from the loaded packages; used for lemma parameters over snapshot slices)
+var snapshotType types.Type = types.Typ[types.Int]
+
 type lemmaParam struct {
 	name, kind string
 }
@@ -32,6 +35,10 @@ func (e *Engine) lemmaValue(kind, name string, st *State, bound map[string]*Term
 		id := mkConst(name, SInt)
 		st.assume(mkCmp(">=", e.slen(id), mkInt(0)))
 		return VStream{ID: id, Elem: types.Typ[types.Int]}
+	case "refslice":
+		ln := mkConst(name+".len", SInt)
+		st.assume(mkCmp(">=", ln, mkInt(0)))
+		return VSlice{Arr: mkConst(name+".arr", arraySort(SInt, SRef)), Len: ln, Elem: types.NewPointer(snapshotType)}
 	case "chanslice":
 		ln := mkConst(name+".len", SInt)
 		st.assume(mkCmp(">=", ln, mkInt(0)))
@@ -41,7 +48,7 @@ func (e *Engine) lemmaValue(kind, name string, st *State, bound map[string]*Term
 	case "real":
 		return VTerm{T: mkConst(name, SReal), Typ: f64}
 	case "func":
-		return VTerm{T: mkConst(name, SInt), Typ: types.Typ[types.Int]}
+		return VFunc{ID: mkConst(name, SInt), Sig: types.NewSignatureType(nil, nil, nil, types.NewTuple(types.NewVar(0, nil, "x", types.NewPointer(snapshotType))), types.NewTuple(types.NewVar(0, nil, "", types.Typ[types.Bool])), false)}
 	}
 	unsup("lemma parameter kind %s", kind)
 	return nil
@@ -59,6 +66,7 @@ func (e *Engine) verifyLemma(name string, c *Contract) *FuncReport {
 	e.baseNames = map[string]Value{}
 	e.selfNames = map[string]Value{}
 	e.callRes = map[string][]Value{}
+	e.globalErrs = map[string]*Term{}
 	e.callArgs = map[string][][]Value{}
 	e.dynType = map[string]types.Type{}
 	e.nfresh = 0
@@ -135,15 +143,26 @@ func (e *Engine) useLemma(x *SExpr, env *SpecEnv, st *State, where string) {
 	names := map[string]Value{}
 	ai := 0
 	var bv *Term
+	var bvs []*Term
 	for _, p := range ps {
 		if p.name == ind && len(args) == len(ps)-1 {
 			e.nfresh++
 			bv = mkVar(fmt.Sprintf("%s$%d", p.name, e.nfresh), SInt)
+			bvs = append(bvs, bv)
 			names[p.name] = VTerm{T: bv, Typ: types.Typ[types.Int]}
 			continue
 		}
 		if ai >= len(args) {
 			unsup("use %s: too few arguments", name)
+		}
+		if args[ai].Kind == "ident" && args[ai].Val == "_" {
+			// universally quantified integer parameter
+			e.nfresh++
+			b2 := mkVar(fmt.Sprintf("%s$%d", p.name, e.nfresh), SInt)
+			bvs = append(bvs, b2)
+			names[p.name] = VTerm{T: b2, Typ: types.Typ[types.Int]}
+			ai++
+			continue
 		}
 		names[p.name] = e.evalSpec(args[ai], env)
 		ai++
@@ -152,14 +171,13 @@ func (e *Engine) useLemma(x *SExpr, env *SpecEnv, st *State, where string) {
 	lenv := &SpecEnv{e: e, st: st, names: names, noScope: true}
 	var dep, indep []*Term
 	mentions := func(t *Term) bool {
-		if bv == nil {
-			return false
-		}
 		found := false
 		var w func(t *Term)
 		w = func(t *Term) {
-			if t == bv {
-				found = true
+			for _, b := range bvs {
+				if t == b {
+					found = true
+				}
 			}
 			for _, a := range t.Args {
 				w(a)
@@ -185,8 +203,8 @@ func (e *Engine) useLemma(x *SExpr, env *SpecEnv, st *State, where string) {
 		enss = append(enss, term(e.evalSpec(cl.Expr, lenv)))
 	}
 	body := mkImplies(mkAnd(dep...), mkAnd(enss...))
-	if bv != nil {
-		st.assume(mkForall([]*Term{bv}, body, e.patternsFor([]*Term{bv}, mkAnd(enss...))))
+	if len(bvs) > 0 {
+		st.assume(mkForall(bvs, body, e.patternsMulti(bvs, mkAnd(enss...))))
 	} else {
 		st.assume(body)
 	}
